@@ -3,7 +3,7 @@
    geometry) is the formal reading of the property text; what is proved here is that this reading has the invariances the text
    demands and is internally consistent.  "The rules are the OGC rules" is not a theorem. *)
 From Coq Require Import ZArith List Bool Permutation.
-From GeosV.Lib Require Import GeomDefs LocateDefs ValidDefs Geom Locate Valid ValidPerm ValidFacts ValidLoc.
+From GeosV.Lib Require Import GeomDefs LocateDefs ValidDefs Geom Locate LocateRing LocateCov Valid ValidPerm ValidFacts ValidLoc.
 Import ListNotations.
 Local Open Scope Z_scope.
 
@@ -111,6 +111,24 @@ Theorem C05_violation_on_geometry : forall flag ru g q, In q (rule_set flag ru g
 Proof. exact violation_on_geometry. Qed.
 Print Assumptions C05_violation_on_geometry.
 
+Theorem C05_nonsimple_on_geometry : forall g q, In q (nonsimple_pts g) -> loc_h g q <> Exterior.
+Proof. exact nonsimple_on_geometry. Qed.
+Print Assumptions C05_nonsimple_on_geometry.
+
+(* ---- the point set of a geometry moves with the geometry (all four boundary-node rules) ---- *)
+Theorem C05_loc_translate : forall d rule g p, loc_dim rule (map_geom (translate d) g) (translate d p) = loc_dim rule g p.
+Proof. exact loc_dim_translate. Qed.
+Print Assumptions C05_loc_translate.
+Theorem C05_loc_reflect_x : forall rule g p, loc_dim rule (map_geom reflect_x g) (reflect_x p) = loc_dim rule g p.
+Proof. exact loc_dim_reflect_x. Qed.
+Print Assumptions C05_loc_reflect_x.
+Theorem C05_loc_reflect_y : forall rule g p, loc_dim rule (map_geom reflect_y g) (reflect_y p) = loc_dim rule g p.
+Proof. exact loc_dim_reflect_y. Qed.
+Print Assumptions C05_loc_reflect_y.
+Theorem C05_loc_swap_xy : forall rule g p, loc_dim rule (map_geom swap_xy g) (swap_xy p) = loc_dim rule g p.
+Proof. exact loc_dim_swap_xy. Qed.
+Print Assumptions C05_loc_swap_xy.
+
 (* ---- point location: the primitive under the symmetries ---- *)
 Theorem C05_in_ring_translate : forall d p r, in_ring (translate d p) (map (translate d) r) = in_ring p r.
 Proof. exact in_ring_translate. Qed.
@@ -119,7 +137,21 @@ Theorem C05_in_ring_swap_xy : forall p r, in_ring (swap_xy p) (map swap_xy r) = 
 Proof. exact in_ring_swap. Qed.
 Print Assumptions C05_in_ring_swap_xy.
 
+(* point location does not depend on where a closed ring starts, nor on its direction.
+   (Verdict-level invariance under ring rotation / reversal is NOT proved: it is executed on the specification and on the
+   library for every derived case of the correspondence.) *)
+Theorem C05_in_ring_rotate : forall k p r, closed r = true -> in_ring p (rotate_ring k r) = in_ring p r.
+Proof. exact in_ring_rotate. Qed.
+Print Assumptions C05_in_ring_rotate.
+Theorem C05_in_ring_reverse : forall p r, in_ring p (reverse_ring r) = in_ring p r.
+Proof. exact in_ring_reverse. Qed.
+Print Assumptions C05_in_ring_reverse.
+
 (* ---- non-vacuity ---- *)
+Example ex_rotate : rotate_ring 2 [(0, 0); (4, 0); (4, 4); (0, 4); (0, 0)] = [(4, 4); (0, 4); (0, 0); (4, 0); (4, 4)]
+  /\ in_ring (1, 1) [(0, 0); (4, 0); (4, 4); (0, 4); (0, 0)] = Interior /\ in_ring (4, 2) [(0, 0); (4, 0); (4, 4); (0, 4); (0, 0)] = Boundary
+  /\ in_ring (5, 2) [(0, 0); (4, 0); (4, 4); (0, 4); (0, 0)] = Exterior.
+Proof. vm_compute. auto. Qed.
 Definition sq (x0 y0 x1 y1 : Z) : seq := [(x0, y0); (x1, y0); (x1, y1); (x0, y1); (x0, y0)].
 (* a valid polygon with two holes touching the shell at the same vertex; valid in every hole order *)
 Definition ex_two_holes : geom := GPoly (sq 0 0 24 24) [[(0, 0); (6, 1); (6, 2); (0, 0)]; [(0, 0); (2, 6); (1, 6); (0, 0)]].
